@@ -31,6 +31,8 @@ OBIS6 = re.compile(r"^\d+(\.\d+){5}$")
 
 def check(src, rep):
     M = Model(src)
+    from sa.oneshot import rule as _one_shot
+    _one_shot(rep, M, src, ("kamstrup", "obis_map", "cosem", "obis", "common"), "R1")
     ce = ConstEval(M)
     w = World(src)
     file = src.file(MOD)
